@@ -1,18 +1,16 @@
 (* Model of src/pdsh/wcoll.c (read_wcoll and its helpers) over an abstract file system:
-   which host expressions are pushed, in which order, for a file named on the command line. *)
+   which host expressions are pushed, in which order, for a file named on the command line
+   (or for a stream: standard input).
+
+   The file system is a finite map from path STRINGS to contents.  Two spellings of one file
+   (a/b and a/./b) are two keys with the same contents: the code identifies files by the
+   string it built, and so does the model. *)
 From PV Require Export Base.Bytes Generated.Params.
 Local Open Scope N_scope.
 
 Definition fsys := list (bytes * bytes).       (* readable files: path -> contents *)
-Fixpoint lookup_raw (fs : fsys) (p : bytes) : option bytes :=
-  match fs with [] => None | (q, c) :: r => if beq p q then Some c else lookup_raw r p end.
-(* the file system ignores leading "./" components; the code's path STRINGS keep them *)
-Fixpoint norm_f (fuel : nat) (p : bytes) : bytes :=
-  match fuel with
-  | O => p
-  | S f => match p with 46 :: 47 :: r => norm_f f r | _ => p end
-  end.
-Definition lookup (fs : fsys) (p : bytes) : option bytes := lookup_raw fs (norm_f (length p) p).
+Fixpoint lookup (fs : fsys) (p : bytes) : option bytes :=
+  match fs with [] => None | (q, c) :: r => if beq p q then Some c else lookup r p end.
 
 (* getline(3): pieces ending with their newline; a last piece without one if non-empty *)
 Fixpoint lines_acc (s cur : bytes) : list bytes :=
@@ -21,6 +19,9 @@ Fixpoint lines_acc (s cur : bytes) : list bytes :=
   | b :: r => if b =? 10 then rev (10 :: cur) :: lines_acc r [] else lines_acc r (b :: cur)
   end.
 Definition file_lines (s : bytes) : list bytes := lines_acc s [].
+
+(* what the str* functions see of a getline buffer: the bytes before the first NUL *)
+Definition cstr (s : bytes) : bytes := take_while (fun b => negb (b =? 0)) s.
 
 (* xstrcln(line, NULL): strip "\n\t " at both ends *)
 Definition is_sp (b : N) : bool := (b =? 10) || (b =? 9) || (b =? 32).
@@ -58,20 +59,32 @@ Definition dirname (p : bytes) : bytes :=
          | _ => match strip_trailing_slashes after with [] => [47] | d => rev d end
          end
   end.
-Definition basename (p : bytes) : bytes :=
-  rev (take_while (fun b => negb (b =? 47)) (strip_trailing_slashes (rev p))).
+(* xbasename: what follows the last '/' *)
+Definition basename (p : bytes) : bytes := rev (take_while (fun b => negb (b =? 47)) (rev p)).
 
-(* wcoll_ctx_resolve_path: absolute, ./ and ../ names are taken as they are, others are
-   looked up in the directory of the file named on the command line *)
-Definition resolve (fs : fsys) (dir name : bytes) : option bytes :=
+(* wcoll_ctx_resolve_path: absolute, ./ and ../ names are taken as they are (strncpy into the
+   WCOLL_PATHBUF-byte buffer: a name that fills it is left without terminator), others are looked
+   up in the directory of the file named on the command line (snprintf, must fit, access R_OK) *)
+Definition as_is (name : bytes) : bool :=
   match name with
-  | 47 :: _ => Some name
-  | 46 :: 47 :: _ => Some name
-  | 46 :: 46 :: 47 :: _ => Some name
-  | _ => let p := dir ++ 47 :: name in match lookup fs p with Some _ => Some p | None => None end
+  | 47 :: _ => true
+  | 46 :: 47 :: _ => true
+  | 46 :: 46 :: 47 :: _ => true
+  | _ => false
   end.
+Inductive rpath := PathOk (p : bytes) | PathNone | PathFault.
+Definition resolve (fs : fsys) (dir name : bytes) : rpath :=
+  if as_is name then
+    if N.of_nat (length name) <? WCOLL_PATHBUF - 1 then PathOk name else PathFault
+  else
+    let p := dir ++ 47 :: name in
+    if WCOLL_PATHBUF <=? N.of_nat (length p) then PathNone
+    else match lookup fs p with Some _ => PathOk p | None => PathNone end.
 
-Inductive rres := ROk (exprs : list bytes) (cache : list bytes) (warnings : nat) | RFatal.
+(* ROk: expressions pushed in order, include cache (newest first), number of warnings.
+   RFatal: errx() (unreadable).  RFault: the unterminated path buffer was used.
+   RDiverges: the model's recursion fuel ran out (excluded by WcollFacts.read_wcoll_terminates). *)
+Inductive rres := ROk (exprs : list bytes) (cache : list bytes) (warnings : nat) | RFatal | RFault | RDiverges.
 
 (* one line of a file, after include handling: the expression pushed, if any *)
 Definition line_expr (line : bytes) : option bytes :=
@@ -82,48 +95,68 @@ Section Read.
 Variable fs : fsys.
 Variable dir : bytes.
 
+(* wcoll_ctx_read_line up to the recursive call: what one getline buffer asks for *)
+Inductive line_act := LExpr (e : option bytes) | LWarn | LInclude (path : bytes) | LFatal | LFault.
+Definition line_action (buf : bytes) : line_act :=
+  let line := cstr buf in
+  match line with
+  | 35 :: _ =>
+    match include_file line with
+    | Some (Some name) =>
+        match resolve fs dir name with
+        | PathNone => LFatal
+        | PathFault => LFault
+        | PathOk path => LInclude path
+        end
+    | Some None => LWarn
+    | None => LExpr None
+    end
+  | _ => LExpr (line_expr line)
+  end.
+
+(* the effect of one line given what a nested read would give *)
+Definition line_result (nested : list bytes -> list bytes -> rres) (cache : list bytes) (buf : bytes) : rres :=
+  match line_action buf with
+  | LExpr (Some e) => ROk [e] cache 0
+  | LExpr None => ROk [] cache 0
+  | LWarn => ROk [] cache 1                                  (* "Ignoring invalid line" *)
+  | LFatal => RFatal
+  | LFault => RFault
+  | LInclude path =>
+      if existsb (beq path) cache then ROk [] cache 1        (* "included multiple times" *)
+      else match lookup fs path with
+           | None => RFatal
+           | Some content => nested (file_lines content) (path :: cache)
+           end
+  end.
+(* r, then the rest of the lines with the cache r left *)
+Definition then_result (r : rres) (k : list bytes -> rres) : rres :=
+  match r with
+  | ROk es c1 w1 => match k c1 with ROk es2 c2 w2 => ROk (es ++ es2) c2 (w1 + w2) | r' => r' end
+  | r' => r'
+  end.
+
 Fixpoint read_lines (fuel : nat) (ls0 : list bytes) (cache0 : list bytes) {struct fuel} : rres :=
-  let nested := match fuel with O => fun _ _ => RFatal | S f => read_lines f end in
+  let nested := match fuel with O => fun _ _ => RDiverges | S f => read_lines f end in
   (fix go (ls : list bytes) (cache : list bytes) {struct ls} : rres :=
   match ls with
   | [] => ROk [] cache 0
-  | line :: rest =>
-    let here :=
-      match line with
-      | 35 :: _ =>
-        match include_file line with
-        | Some (Some name) =>
-            match resolve fs dir name with
-            | None => RFatal
-            | Some path =>
-              if existsb (beq path) cache then ROk [] cache 1
-              else match lookup fs path with
-                   | None => RFatal
-                   | Some content => nested (file_lines content) (path :: cache)
-                   end
-            end
-        | Some None => ROk [] cache 1
-        | None => ROk [] cache 0
-        end
-      | _ => ROk (match line_expr line with Some e => [e] | None => [] end) cache 0
-      end in
-    match here with
-    | RFatal => RFatal
-    | ROk es c1 w1 =>
-      match go rest c1 with
-      | RFatal => RFatal
-      | ROk es2 c2 w2 => ROk (es ++ es2) c2 (w1 + w2)
-      end
-    end
+  | line :: rest => then_result (line_result nested cache line) (go rest)
   end) ls0 cache0.
 End Read.
 
-(* read_wcoll(file, NULL) (after the fix: the file itself is remembered, so an include cycle
-   through it is detected) *)
+(* enough fuel for every include graph: each nested read enters a new readable path in the cache *)
+Definition read_fuel (fs : fsys) : nat := S (length fs).
+
+(* read_wcoll(file, NULL): the file itself is remembered under the name an #include would find it *)
 Definition read_wcoll (fs : fsys) (file : bytes) : rres :=
   match lookup fs file with
   | None => RFatal
   | Some content =>
     let dir := dirname file in
-    read_lines fs dir (S (length fs)) (file_lines content) [dir ++ 47 :: basename file]
+    read_lines fs dir (read_fuel fs) (file_lines content) [dir ++ 47 :: basename file]
   end.
+
+(* read_wcoll("-", NULL) / read_wcoll(NULL, stdin): search directory ".", nothing remembered *)
+Definition read_stream (fs : fsys) (content : bytes) : rres :=
+  read_lines fs [46] (read_fuel fs) (file_lines content) [].
